@@ -25,6 +25,10 @@ def progs():
     P = corpus.u_bool_small()[:100] + corpus.u_bool_multistmt()[:60] + corpus.u_bool_random(120)
     P += [p for p in corpus.u_unit(widths=(2, 3)) if p[0] in ("unit-cmp", "unit-constcmp", "unit-arith", "unit-index", "unit-shift")][::3]
     P += [p for p in corpus.u_ctl() if "fixed" not in p[0]]
+    from .. import corpus2
+
+    # generated multi-statement programs (small ones: the quadratic model is decided over all inputs and auxiliaries)
+    P += [p for p in corpus2.u_prog2(500) if corpus.size_ok(p[1], 8, 70) and "Qchar" not in p[1]][:120]
     extra = [
         ("bqm", "def prog(a: bool) -> bool:\n    return a\n"),
         ("bqm", "def prog(a: bool, b: bool) -> bool:\n    return b\n"),
